@@ -14,6 +14,7 @@ CONSTANTS
   HWs = {1}
   Pids = {1, 2}
   MaxUnrep = 3
+  Epochs = {}
   ProbeIds <- MCProbeIds
   ProbeFroms <- MCProbeFroms
   ProbeNos <- MCProbeNos
